@@ -102,12 +102,26 @@ func (s *Setup) CodecCases(e *hx.Env, maxBytes int, valuesPer, mutPer int, malfo
 			if err != nil {
 				return fmt.Errorf("registry type without schema: %v", err)
 			}
+			maxBytes, mutPer := maxBytes, mutPer
+			big := false
 			if t.MinSize() > uint64(maxBytes) {
-				skipped[p.Name] = append(skipped[p.Name], ent.Name)
-				continue
+				// large composite types (states, blocks) are still exercised under the custom presets, with fewer cases
+				if pi >= 2 && t.MinSize() <= 3500 {
+					maxBytes = int(t.MinSize()) + 150
+					big = true
+					if mutPer > 2 {
+						mutPer = 2
+					}
+				} else {
+					skipped[p.Name] = append(skipped[p.Name], ent.Name)
+					continue
+				}
 			}
 			budget := maxBytes - int(t.MinSize())
 			nvals := valuesPer
+			if big && nvals > 2 {
+				nvals = 2
+			}
 			if s.Focus[ent.Name] {
 				nvals = valuesPer * 8 // targeted generation for a type whose obligation broke (DESIGN 2.6 (c))
 			}
@@ -124,7 +138,7 @@ func (s *Setup) CodecCases(e *hx.Env, maxBytes int, valuesPer, mutPer int, malfo
 					g.Mode = 1
 				case 1:
 					g.Mode = 2
-					g.Left = minInt(budget, 700)
+					g.Left = minInt(budget, 400)
 				default:
 					g.Left = []int{60, 300, budget}[e.Rng.Intn(3)]
 				}
